@@ -150,6 +150,12 @@ Definition run_elbo (c : elbo_case) : list Z :=
           ++ ser_expr (elbo_expr pll (qn n) kl beta ndata priors added)
   end.
 
+(* the same case with further added-loss values (those selected by the traversal model of
+   Module.named_added_loss_terms, Models/C02_priors.v added_values) / prior values *)
+Definition elbo_with_added (c : elbo_case) (extra_priors extra_added : list Qc) : elbo_case :=
+  let '(strat, mn, kj, mu, jj, kind, p1, p2, l, y, s2, bn, priors, added) := c in
+  (strat, mn, kj, mu, jj, kind, p1, p2, l, y, s2, bn, priors ++ extra_priors, added ++ extra_added).
+
 (* full batch, homoskedastic or heteroskedastic diagonal noise, unwhitened parametrisation of
    the prior (Kzz+jzz, Kxx+jxx): everything the bound statements compare.
    case = (m, n, KJ, muJ, (jzz, jxx), kind, p1, P2 (q(u) given through an UNWHITENED
